@@ -306,11 +306,8 @@ def geometry_grid():
 
 
 def crosses(g, n):
-    """the sum crosses a byte boundary that neither part crosses alone (or sits exactly on one)"""
-    for t in (127, 255):
-        if (g <= t and n <= t and g + n > t) or g + n in (t, t + 1) or g in (t, t + 1) or n in (t, t + 1):
-            return True
-    return False
+    """the sum reaches a byte boundary that neither part exceeds alone"""
+    return any(g <= t and n <= t and g + n >= t for t in (127, 255))
 
 
 def sample_cells(rng, k):
